@@ -47,6 +47,7 @@ def make_cfg(rs, tier):
     cfg["p_synced_operand"] = rs.choice([0.0, 0.1, 0.2])
     cfg["p_handle_store"] = rs.choice([0.0, 0.05, 0.1])
     cfg["p_fault"] = rs.choice([0.0, 0.0, 0.25])     # fault-free and fault-injecting configurations run separately
+    cfg["p_wrongroot"] = rs.choice([0.0, 0.0, 0.04])
     return cfg
 
 
@@ -54,8 +55,18 @@ setup = _unbuf.setup
 
 
 def gen_step(w, rg):
-    st = _unbuf.gen_step(w, rg)
     cfg = w.cfg
+    r0 = w.res[0]
+    if getattr(r0, "wrongroot", False):
+        from ..core.values import gen_value
+        from ..engines import seqgen as G
+        if rg.random() < 0.5:
+            return {"t": "outside", "rid": 0, "edit": ["restore", gen_value(rg, w.fresh, 2, r0.kind, 3)]}
+        roots = [h for h in w.handles if h is not None and not h.path and w.objs[h.oid].alive]
+        return G.gen_op_step(rg, w, G.pick(rg, roots), depth=1, mut_weight=0.0) if roots else None
+    if cfg.get("p_wrongroot") and r0.disk is not None and rg.random() < cfg["p_wrongroot"]:
+        return {"t": "outside", "rid": 0, "edit": ["wrongroot"]}
+    st = _unbuf.gen_step(w, rg)
     if (cfg.get("p_fault") and st and st.get("t") == "op" and "fault" not in st and not st.get("keep") and w.res[0].store == "file"
             and w.res[0].disk is not None and rg.random() < cfg["p_fault"]):
         h = w.handles[st["hid"]]
